@@ -47,6 +47,7 @@ PROFILES = {
     "imm3": prof("MC_Focus", "MovesImm", 3, srcs=[1, 6]),
     "imm4": prof("MC_Focus", "MovesImm", 4, srcs=[1]),
     "fn1": prof("MC_Fn", "MovesFn", 1, srcs=[9], allow_undef=True),
+    "fn2": prof("MC_Fn", "MovesFn2", 1, srcs=[9], allow_undef=True),
     "str1": prof("MC_Fn", "MovesStr", 1, srcs=[10], allow_undef=True),
     "cast1": prof("MC_Fn", "MovesCast", 1, srcs=[11], allow_undef=True),
     "gsub4": prof("MC_Focus", "MovesGS", 4, srcs=[1, 6]),
@@ -106,7 +107,7 @@ CHECKS = {
     "C03": dict(
         level="model_checking",
         clauses={"rows", "order", "names", "accept", "export-error", "cross-rows"},
-        phases=dict(quick=[dict(kind="laws"), dict(profile="fn1")], thorough=[dict(kind="laws"), dict(profile="fn1")]),
+        phases=dict(quick=[dict(kind="laws"), dict(profile="fn1")], thorough=[dict(kind="laws"), dict(profile="fn1"), dict(profile="fn2")]),
     ),
     "C17": dict(
         level="model_checking",
